@@ -329,6 +329,8 @@ PLAN_C05 = {
         dict(what="every catalogued scalar method x every argument tuple: all 1-row tables", fams=["extend"], rows=1, steps=1, level=3, **T5),
         dict(what="every catalogued scalar method over all 2-row tables (sampled)", fams=["extend"], rows=2, steps=1, level=3, one_in=12,
              **T5),
+        dict(what="text methods (concat, trimstr, mapv, is_in, coalesce, ==, !=, is_null over text): all 1-row tables with g, h in "
+                  "{null, s0, s1, s2}", fams=["extend"], rows=1, steps=1, level=3, tabcols="MC5S_TabCols", colvals="MC5S_ColVals"),
         dict(what="methods defined on infinite values (is_null, is_bad, coalesce, coalesce_0, negation, abs, sign): all 1-row tables with "
                   "x in {null, +inf, -inf, 1}", fams=["extend"], rows=1, steps=1, level=3, tabcols="MC5_TabCols", colvals="MC5I_ColVals"),
     ],
@@ -342,7 +344,8 @@ PLAN_C05 = {
                     "coalesce, coalesce_0, abs, sign, negation, floor/ceil on whole numbers, is_null, is_bad, if_else, where, is_in; "
                     "transcendental methods are uninterpreted in the spec (null propagation and domain only) and realised with "
                     "Python's math module; aggregates and window functions are checked by C09 and C27",
-                    "date/time, string and random methods are not covered",
+                    "text methods concat / trimstr / mapv / is_in are covered with symbolic results realised by the harness; "
+                    "date/time, as_str, as_int64, round / around and random methods are not covered",
                     "PostgreSQL-dialect SQL is executed on SQLite (proxy)"],
 }
 
